@@ -1,48 +1,79 @@
 """C06 - malformed UPDATEs are contained: never installed, answered per RFC 7606 / RFC 4271."""
 import json
 import random
+import threading
 import vpcore as v
 from vprun import Run
 
+MODULE = "UpdateErrorTrace"
+STRICT = "UpdateErrorTrace.cfg"
+KF = "UpdateErrorKF.cfg"
+TRIAGE = "UpdateErrorTriage.cfg"
+CONF = "UpdateErrorConf.cfg"
+D_INVS = ["D_C06_NeverWeaker_Fixed", "D_C06_NeverWeaker_KF", "D_C06_MaskedIsTheOnlyGap",
+          "D_C06_ResetOnlyIfCalledFor", "D_C06_WellFormedNotPenalised"]
+
 
 def gen_cases(run, name, sample_k, sample_r, with_pos, design):
-    """TLC enumerates the cases of spec/UpdateErrorGen.tla as initial states; with design=True the
-    D_* invariants (mechanism layer vs property layer) are checked on every case."""
+    """TLC enumerates the cases of spec/UpdateErrorGen.tla as initial states and prints one schedule
+    per case; with design=True the D_C06_* invariants (mechanism layer against property layer of
+    UpdateError.tla) are checked on every case in the same run."""
     cfg = "UpdateErrorGen_%s.cfg" % name
-    inv = ["Emit"]
-    if design:
-        inv += ["D_C06_NeverWeaker_Fixed", "D_C06_NeverWeaker_KF", "D_C06_MaskedIsTheOnlyGap",
-                "D_C06_ResetOnlyIfCalledFor", "D_C06_WellFormedNotPenalised"]
+    inv = ["Emit"] + (D_INVS if design else [])
     v.write_cfg(run.sc, cfg, "SPECIFICATION Spec\nCONSTANTS\n  SampleK = %d\n  SampleR = %d\n  WithPos = %s\n"
                 "INVARIANTS\n%s\n" % (sample_k, sample_r, "TRUE" if with_pos else "FALSE",
                                       "\n".join("  " + i for i in inv)))
     res = v.tlc(run.sc, "UpdateErrorGen", cfg, workers=4, timeout=900)
     if design:
-        run.design(res, "UpdateErrorGen %s (cases as initial states; D_C06_* on each)" % name)
+        run.design(res, "UpdateErrorGen %s: cases = initial states, D_C06_* on each" % name)
     else:
         v.require_design_ok(res, "UpdateErrorGen " + name)
     if not res.printed:
         raise v.MachineryError("generator printed no case:\n" + res.out[-2000:])
-    cases = sorted(set(res.printed))
-    return cases
+    return set(res.printed)
 
 
-def with_ids(cases):
+def with_ids(cases, first):
     out = []
-    for i, c in enumerate(cases):
+    for i, c in enumerate(sorted(cases)):
         o = json.loads(c)
-        o["id"] = i + 1
+        o["id"] = first + i
         out.append(json.dumps(o, sort_keys=True))
     return out
 
 
+def execute_parallel(run, rx, behs, tag, parts):
+    """the replayers are single-threaded: run `parts` go test processes side by side"""
+    if parts <= 1 or len(behs) < 4 * parts:
+        return run.execute("c06", "pkg/server", rx, behs, tag=tag, timeout=1500)
+    run.overlay("c06", "pkg/server")          # build the overlay file once, before the threads
+    n = (len(behs) + parts - 1) // parts
+    chunks = [behs[i:i + n] for i in range(0, len(behs), n)]
+    res = [None] * len(chunks)
+    err = []
+
+    def work(i):
+        try:
+            res[i] = run.execute("c06", "pkg/server", rx, chunks[i], tag="%s-%d" % (tag, i), timeout=1500)
+        except Exception as ex:     # noqa
+            err.append(ex)
+    ths = [threading.Thread(target=work, args=(i,)) for i in range(len(chunks))]
+    for t in ths:
+        t.start()
+    for t in ths:
+        t.join()
+    if err:
+        raise err[0]
+    return [t for r in res for t in r]
+
+
 def tolerated(run, behs, traces, key):
-    """evidence only: discard-class messages that the speaker treated as withdraw (an over-reaction
-    the one-sided oracle tolerates on purpose)"""
+    """evidence only: discard-class messages the speaker answered with treat-as-withdraw (the
+    over-reaction the one-sided oracle tolerates on purpose)"""
     n = 0
     for b, t in zip(behs, traces):
         o = json.loads(b)
-        if o.get("lo") != 1 or o.get("rj"):
+        if o.get("lo") != 1 or o.get("rj") or o.get("kf"):
             continue
         upd = t[-1]
         if upd.get("ev") != "Upd" or upd["obs"]["sess"] != "up":
@@ -53,52 +84,124 @@ def tolerated(run, behs, traces, key):
     run.extra[key] = run.extra.get(key, 0) + n
 
 
+def triage(run, traces):
+    """One TLC pass with the always-true invariant Triage of the trace spec: which recorded messages
+    fail which strict / KF-weakened invariant, and which known-finding predicates their inputs fall
+    under.  Only a router: every verdict is made afterwards by run.validate."""
+    rows = [r for t in traces for r in t]
+    v.write_ndjson(run.sc.path("spec", "trace.ndjson"), rows)
+    res = v.tlc(run.sc, MODULE, TRIAGE, workers=1, timeout=900, deadlock=False)
+    if res.errors or res.violated or res.post_failed:
+        return None         # let the strict validation report the gap / error
+    out = {}
+    for ln in res.printed:
+        try:
+            o = json.loads(ln)
+        except Exception:
+            continue
+        if isinstance(o, dict) and "triage" in o:
+            out[o["triage"]["id"]] = o["triage"]
+    return out
+
+
+def judge(run, group, behs, traces, batch, conf=True):
+    """Route every recorded trace to the validation that makes its verdict:
+       passes the strict invariants (the bulk)            -> strict cfg, one batch;
+       fails one exactly as a REGISTERED known finding     -> KF cfg (weakened invariants), counted
+                                                              as KNOWN-FINDING hits;
+       anything else                                       -> the framework's one-by-one path
+                                                              (strict, then KF + known_findings),
+                                                              i.e. a VIOLATION unless known.
+    The routing itself comes from one TLC pass (triage) and decides nothing."""
+    registered = {k["id"] for k in run.known if k["property"] == run.prop}
+    sel = lambda idx: ([traces[i] for i in idx], [behs[i] for i in idx])   # noqa
+    tri = triage(run, traces)
+    if tri is None:
+        run.validate(MODULE, STRICT, traces, behs, known_cfg=KF, group=group, batch=batch)
+        return
+    passing, known, other = [], [], []
+    for i, b in enumerate(behs):
+        x = tri.get(json.loads(b)["id"])
+        if x is None:
+            passing.append(i)
+        elif not x["kf"] and set(x["tags"]) & registered:
+            known.append((i, x))
+        else:
+            other.append(i)
+    if passing:
+        t, b = sel(passing)
+        run.validate(MODULE, STRICT, t, b, known_cfg=KF, group=group, conf_cfg=CONF if conf else None, batch=batch)
+    if known:
+        t, b = sel([i for i, _ in known])
+        val = run.validate(MODULE, KF, t, b, group=group, batch=batch)
+        if not val.failures and not val.gaps:
+            for _, x in known:
+                for tag in x["tags"]:
+                    if tag in registered:
+                        run.known_hits[tag] = run.known_hits.get(tag, 0) + 1
+    if other:
+        # one replay file per distinct failure is enough to fail the check; the one-by-one path costs
+        # a TLC run per trace, so it is bounded
+        run.extra["unexpected_failing_traces_" + group] = len(other)
+        seen, pick = set(), []
+        for i in other:
+            x = tri[json.loads(behs[i])["id"]]
+            key = (tuple(sorted(x["strict"])), tuple(sorted(x["kf"])))
+            if key not in seen and len(pick) < 6:
+                seen.add(key)
+                pick.append(i)
+        t, b = sel(pick)
+        run.validate(MODULE, STRICT, t, b, known_cfg=KF, group=group, batch=batch)
+
+
 def main(run: Run):
     thorough = run.tier == "thorough"
     rnd = random.Random(run.seed)
     if run.replay:
-        for group, h, rx in (("e2e", "c06", "^TestVerifC06E2E$"), ("wb", "c06", "^TestVerifC06WB$")):
+        for group, rx in (("e2e", "^TestVerifC06E2E$"), ("wb", "^TestVerifC06WB$")):
             behs = run.replay_behaviours(group)
             if behs:
-                traces = run.execute(h, "pkg/server", rx, behs, tag="c06-" + group)
-                run.validate("UpdateErrorTrace", "UpdateErrorTrace.cfg", traces, behs,
-                             known_cfg="UpdateErrorKF.cfg", group=group, conf_cfg="UpdateErrorConf.cfg")
+                traces = run.execute("c06", "pkg/server", rx, behs, tag="c06-" + group)
+                run.validate(MODULE, STRICT, traces, behs, known_cfg=KF, group=group)
         return
-    # 1+2. design level and enumeration in one TLC run: every case is an initial state
+    # 1+2. design level and enumeration in one TLC run per cfg: every case is an initial state
     if thorough:
-        cases = gen_cases(run, "full", 1, 0, True, True)
+        # every single fault at every position, every pair of faults (attributes where the valid
+        # message has them), and a seeded 1/11 sample of the position variants of the pairs
+        cases = gen_cases(run, "allpairs", 1, 0, False, True)
+        cases |= gen_cases(run, "positions", 11, run.seed, True, True)
     else:
         cases = gen_cases(run, "quick", 23, run.seed, True, True)
-    cases = with_ids(cases)
-    singles = [c for c in cases if len(json.loads(c)["faults"]) <= 1]
-    pairs = [c for c in cases if len(json.loads(c)["faults"]) == 2]
+    cases = with_ids(cases, 1)
+    nf = lambda c: len(json.loads(c)["faults"])     # noqa
+    singles = [c for c in cases if nf(c) <= 1]
+    pairs = [c for c in cases if nf(c) == 2]
     run.extra["cases_enumerated"] = len(cases)
     run.extra["cases_single_fault"] = len(singles)
     run.extra["cases_two_faults"] = len(pairs)
+    run.extra["cases_in_known_finding_predicates"] = sum(1 for c in cases if json.loads(c).get("kf"))
     # 3. white box: everything that was enumerated
-    wb = cases
-    traces = run.execute("c06", "pkg/server", "^TestVerifC06WB$", wb, tag="c06-wb", timeout=1500)
-    tolerated(run, wb, traces, "tolerated_discard_treated_as_withdraw_wb")
-    run.validate("UpdateErrorTrace", "UpdateErrorTrace.cfg", traces, wb, known_cfg="UpdateErrorKF.cfg",
-                 group="wb", conf_cfg="UpdateErrorConf.cfg", batch=6000)
-    # 4. end to end: singles (quick: as-is position only) + sampled pairs
+    traces = execute_parallel(run, "^TestVerifC06WB$", cases, "c06-wb", 4 if thorough else 2)
+    tolerated(run, cases, traces, "tolerated_discard_answered_by_withdraw_wb")
+    judge(run, "wb", cases, traces, batch=6000)
+    # 4. end to end: the single faults (quick: as-is position only) + sampled pairs
     if thorough:
         e2e = singles + rnd.sample(pairs, min(len(pairs), 3000))
     else:
         s0 = [c for c in singles if all(f["pos"] == "orig" for f in json.loads(c)["faults"])]
-        e2e = s0 + rnd.sample(pairs, min(len(pairs), 500))
-    traces = run.execute("c06", "pkg/server", "^TestVerifC06E2E$", e2e, tag="c06-e2e", timeout=1500)
-    tolerated(run, e2e, traces, "tolerated_discard_treated_as_withdraw_e2e")
-    run.validate("UpdateErrorTrace", "UpdateErrorTrace.cfg", traces, e2e, known_cfg="UpdateErrorKF.cfg",
-                 group="e2e", batch=3000)
+        e2e = s0 + rnd.sample(pairs, min(len(pairs), 400))
+    run.extra["cases_end_to_end"] = len(e2e)
+    traces = execute_parallel(run, "^TestVerifC06E2E$", e2e, "c06-e2e", 4 if thorough else 3)
+    tolerated(run, e2e, traces, "tolerated_discard_answered_by_withdraw_e2e")
+    judge(run, "e2e", e2e, traces, batch=3000, conf=False)
 
 
 RULE = ("cases = TLC enumeration (UpdateErrorGen.tla, initial states) of peer type {eBGP, iBGP, confederation} x "
         "treat-as-withdraw on/off x base UPDATE {v4 NLRI, MP_REACH v6, withdraw-only, mixed} x {no fault, one "
         "fault, two faults of the RFC 7606/4271 catalogue} x position of the faulted attribute; the harness "
-        "builds the bytes, routes for every named prefix are installed beforehand; every recorded message is "
-        "judged by UpdateErrorTrace.tla. non-trivial = a recorded message with at least one real fault, "
-        "counted by distinct (replayer, peer type, switch, base, fault set)")
+        "builds the bytes; routes for every prefix are installed by the same peer beforehand; every recorded "
+        "message is judged by UpdateErrorTrace.tla. non-trivial = a recorded message with at least one real "
+        "fault, counted by distinct (replayer, peer type, switch, base, fault set)")
 LEVEL = "model_checking"
 ASSUMPTIONS = [
     "the fault catalogue of spec/UpdateError.tla is my transcription of RFC 7606 3-7, RFC 4271 6.3, RFC 6793 6, "
@@ -109,4 +212,6 @@ ASSUMPTIONS = [
     "session is established (the public API forces it on)",
     "white-box replayer: real recvMessageloop + real handleUpdate without the server around them; the "
     "session teardown after a reset is only observed end to end",
+    "messages whose inputs satisfy a known-finding predicate of UpdateError.tla and that fail a strict "
+    "invariant are validated against the KF-weakened invariants (UpdateErrorKF.cfg) only",
 ]
